@@ -98,6 +98,15 @@ struct Sched {
 }
 
 static ACTIVE: AtomicBool = AtomicBool::new(false);
+/// MIX scenarios (c20): the top-level threads are spawned by the harness and allocate their scratches
+/// themselves, one after the other, so address reuse between them is legitimate: DISJOINT is then only
+/// checked among the children of library scopes.
+pub static HARNESS_TOP_LEVEL: AtomicBool = AtomicBool::new(false);
+
+/// True on a thread that is already running under `run` (a nested `run` would tear the scheduler down).
+pub fn nested() -> bool {
+    ACTIVE.load(Ordering::Acquire) && me().is_some()
+}
 static SCHED: Mutex<Option<Sched>> = Mutex::new(None);
 static CV: Condvar = Condvar::new();
 
@@ -417,6 +426,9 @@ pub fn arena_take(parent: (usize, usize), taken: (usize, usize), rem: (usize, us
             }
             // only siblings of the same scope instance: their windows must stay disjoint for the whole scope
             if s.threads[o].parent != s.threads[tid].parent || s.threads[o].scope != s.threads[tid].scope {
+                continue;
+            }
+            if s.threads[tid].parent == Some(0) && HARNESS_TOP_LEVEL.load(Ordering::Relaxed) {
                 continue;
             }
             if let Some((lo, hi)) = b
